@@ -15,4 +15,5 @@ func checkC03(c *Ctx, r *Report) {
 	nonWrap := ruleTWRAP(c, r)
 	ruleWDD(c, r, sep, decSR, dec)
 	ruleWEE(c, r, nonWrap)
+	ruleSMEMBEREnc(c, r)
 }
